@@ -57,6 +57,21 @@ Theorem C12_quantile_class : forall xs (k : nat) v,
 Proof. intros xs k v Hs Hn Hk. exact (quantile_class_spec xs k Hs Hn Hk v). Qed.
 Print Assumptions C12_quantile_class.
 
+(* quantile is order preserving on the data: a larger datum never gets a smaller class *)
+Theorem C12_quantile_order_preserving : forall xs (k : nat) v w cv cw,
+  zsorted xs -> 1 <= lenZ xs -> (0 < k)%nat -> In v xs -> In w xs -> v <= w ->
+  quantile_class xs k v = Some (XFin cv) -> quantile_class xs k w = Some (XFin cw) -> cv <= cw.
+Proof.
+  intros xs k v w cv cw Hs Hn Hk Hv Hw Hvw Ev Ew.
+  destruct (quantile_class_spec xs k Hs Hn Hk v Hv) as (c1 & E1 & F1 & _).
+  destruct (quantile_class_spec xs k Hs Hn Hk w Hw) as (c2 & E2 & F2 & _).
+  rewrite Ev in E1. rewrite Ew in E2. inversion E1; inversion E2; subst c1 c2.
+  refine (class_cell_monotone (quantile_bins xs k) (XFin (Z.of_nat k * v)) (XFin (Z.of_nat k * w)) cv cw _ eq_refl eq_refl _ F1 F2).
+  - apply xfin_all_ok.
+  - simpl. apply Z.leb_le. nia.
+Qed.
+Print Assumptions C12_quantile_order_preserving.
+
 (* non-vacuity and a worked example: n = 7 values with ties, k = 4.
    positions (i+1)*6/4 = 1.5, 3, 4.5, 6  ->  cuts 1.5, 2, 6.5, 9  (times 4: 6, 8, 26, 36) *)
 Example C12_quantile_example :
